@@ -3,11 +3,12 @@
    import-set size, defect kinds and "missing import" choices, and export the invalid ones as
    cases for harness/reportdrv (mode ws): the driver renders the files, compiles the workspace
    with the real experimental compiler at parallelism 1..16, repeatedly, and compares the
-   canonicalized reports.  `rev` chooses the order in which the files are handed to the
+   canonicalized reports.  Only the files with inws = TRUE are handed to the compiler.  `rev` chooses the order in which the files are handed to the
    compiler (an input, fixed per case).                                                        *)
 EXTENDS DiagWorkspace, TLC, Json
 
-CONSTANTS NFilesSet, Kinds, MaxImports, AllowSelf, MissingChoices, RevChoices, OnlyCyclic
+CONSTANTS NFilesSet, Kinds, MaxImports, AllowSelf, MissingChoices, RevChoices, InWsChoices,
+          OnlyPinned    \* export only the ImportedOnlyClash shapes (acyclic)
 
 VARIABLES ws, rev, nfiles
 vars == <<ws, rev, nfiles>>
@@ -18,8 +19,8 @@ AddFile ==
   /\ Len(ws) < nfiles
   /\ LET me == Len(ws) + 1
      IN \E imps \in {s \in SUBSET (1..nfiles) : Cardinality(s) <= MaxImports /\ (AllowSelf \/ me \notin s)} :
-        \E m \in MissingChoices : \E k \in Kinds :
-           ws' = Append(ws, [imports |-> imps, missing |-> m, kind |-> k])
+        \E m \in MissingChoices : \E k \in Kinds : \E w \in InWsChoices :
+           ws' = Append(ws, [inws |-> w, imports |-> imps, missing |-> m, kind |-> k])
   /\ UNCHANGED <<rev, nfiles>>
 Next == AddFile
 Spec == Init /\ [][Next]_vars
@@ -29,13 +30,17 @@ Complete == Len(ws) = nfiles
 Case == [kind |-> "ws",
          files |-> [i \in 1..Len(ws) |->
                       [name |-> Names[i], imports |-> {Names[j] : j \in ws[i].imports},
-                       missing |-> ws[i].missing, kind |-> ws[i].kind]],
+                       missing |-> ws[i].missing, kind |-> ws[i].kind, inws |-> ws[i].inws]],
          rev |-> rev,
          cyclic |-> Cyclic(ws),
          selfimport |-> SelfImport(ws),
          tainted |-> {Names[i] : i \in TaintedByCycle(ws)},
+         compiled |-> {Names[i] : i \in Compiled(ws)},
          expect |-> IF Cyclic(ws) THEN {} ELSE Expect(ws),
+         unsettled |-> Unsettled(ws),
+         pinned |-> ImportedOnlyClash(ws) /\ ~ Cyclic(ws),
          shape |-> Shape(ws)]
 
-Export == (Complete /\ Invalid(ws) /\ (OnlyCyclic => Cyclic(ws))) => PrintT("CASE " \o ToJson(Case))
+Export == (Complete /\ Workspace(ws) # {} /\ Invalid(ws)
+           /\ (OnlyPinned => (ImportedOnlyClash(ws) /\ ~ Cyclic(ws)))) => PrintT("CASE " \o ToJson(Case))
 =============================================================================
